@@ -128,6 +128,25 @@ def check(repo: Repo, rep: Report) -> None:
             rep.ob("G1-gating", g_, "with_latest_from: the other sources are subscribed before the primary", all(k.index < prim[0].index for k in kids),
                    "with_latest_from subscribes its primary source before the others: primary elements delivered at subscription time are "
                    "dropped although every other source would have had a value")
+    # reactivex.amb(*sources): every source is folded through the two-source operator
+    rep.rule("A1-amb-fold", "reactivex.amb folds every one of its sources through the two-source amb operator and returns the fold", floor=1)
+    af = repo.fn("reactivex/observable/amb.py", "amb_")
+    var = af.node.args.vararg.arg if af.node.args.vararg else None
+    loops = [n for n in af.direct_nodes() if isinstance(n, ast.For) and isinstance(n.iter, ast.Name) and n.iter.id == var and isinstance(n.target, ast.Name)]
+    ok = False
+    what = "no loop over the sources"
+    if len(loops) == 1:
+        lv = loops[0].target.id
+        accs = [st for st in loops[0].body if isinstance(st, ast.Assign) and isinstance(st.targets[0], ast.Name)
+                and any(isinstance(x, ast.Name) and x.id == st.targets[0].id for x in ast.walk(st.value))
+                and any(isinstance(x, ast.Name) and x.id == lv for x in ast.walk(st.value))]
+        rets = [n for n in af.direct_nodes() if isinstance(n, ast.Return)]
+        uses_amb = any(isinstance(x, ast.Call) and call_name(x) == "amb" for g_ in af.walk() for x in g_.all_nodes()) if hasattr(af, "walk") else False
+        ok = len(accs) == 1 and len(rets) == 1 and u(rets[0].value) == accs[0].targets[0].id and uses_amb
+        what = "the loop does not accumulate `acc = amb(acc, source)` / the fold is not returned"
+    rep.ob("A1-amb-fold", af, "for source in sources: acc = amb(acc, source); return acc", ok,
+           f"reactivex.amb does not race all its sources ({what}): some sources are never subscribed — the result mirrors the wrong "
+           f"source or never()")
     # fork_join
     f = repo.fn("reactivex/observable/forkjoin.py", "fork_join_.subscribe")
     for g, s, k in TC.downstream_sites(f, ("on_next",)):
